@@ -290,7 +290,26 @@ func (c *Ctx) checkSubackMapping(r *Report, m *gwModel) {
 			}
 			n++
 			r.fn(f)
-			isRC0 := func(v ssa.Value) bool {
+			var isRC0 func(v ssa.Value) bool
+			isRC0 = func(v ssa.Value) bool {
+				// a parameter of an unexported helper of the package: what every call site passes
+				if p, ok := stripConv(v).(*ssa.Parameter); ok && p.Parent() != f && p.Parent().Object() != nil && !p.Parent().Object().Exported() {
+					idx := paramIndex(p.Parent(), p)
+					nSites, all := 0, true
+					for _, g := range c.repoFuncs("gateway") {
+						allInstrs(g, func(j ssa.Instruction) {
+							cj, ok := j.(ssa.CallInstruction)
+							if !ok || staticCallee(cj.Common()) != p.Parent() || idx < 0 || idx >= len(cj.Common().Args) {
+								return
+							}
+							nSites++
+							if g == p.Parent() || !isRC0(cj.Common().Args[idx]) {
+								all = false
+							}
+						})
+					}
+					return nSites > 0 && all
+				}
 				for _, o := range c.origins(v) {
 					if o.Kind == "index" && len(o.Args) == 2 {
 						if k, ok := constInt(o.Args[1]); ok && k == 0 && c.valueIsField(o.Args[0], pahoPkts, "SubackPacket", "ReturnCodes") {
